@@ -202,11 +202,17 @@ def hyp_search(ctx, strategy, fn, max_examples, name='', max_buckets=6, shrink=T
     from hypothesis import given, settings, HealthCheck, Phase
 
     ignored = set()
-    phases = [Phase.explicit, Phase.reuse, Phase.generate, Phase.target]
-    if shrink:
-        phases.append(Phase.shrink)
     for _round in range(max_buckets):
         last = {}
+        # shrinking is a convenience for whoever reads the replay; on a badly broken tree it can take minutes per
+        # bucket, so each check has a wall-clock allowance for it, after which failures are reported unshrunk
+        left = getattr(ctx, 'shrink_seconds_left', None)
+        if left is None:
+            left = ctx.shrink_seconds_left = 600.0 if getattr(ctx, 'thorough', False) else 90.0
+        phases = [Phase.explicit, Phase.reuse, Phase.generate, Phase.target]
+        if shrink and left > 0:
+            phases.append(Phase.shrink)
+        t_start = time.time()
 
         @hypothesis.seed(ctx.seed)
         @settings(max_examples=max_examples, database=None, deadline=None,
@@ -228,6 +234,7 @@ def hyp_search(ctx, strategy, fn, max_examples, name='', max_buckets=6, shrink=T
         try:
             test()
         except Violation:
+            ctx.shrink_seconds_left = left - (time.time() - t_start)
             v = last['v']
             ctx.fail(v.key, v.what, v.case)
             ignored.add(v.key)
